@@ -40,6 +40,10 @@ func (e *Engine) verifyContract(ct *Contract) (res *FnResult) {
 				res.Unsupported = u.msg
 				return
 			}
+			if se, ok := r.(specErr); ok {
+				res.Unsupported = "contract error: " + se.msg
+				return
+			}
 			panic(r)
 		}
 	}()
@@ -129,6 +133,12 @@ func (e *Engine) verifyContract(ct *Contract) (res *FnResult) {
 	// ghost assignments: the ghost variable takes the value of the expression (evaluated at exit)
 	fc.applyGhostSets(ct, penv, exit)
 	for _, cl := range ct.Ensures {
+		if strings.HasPrefix(cl.Label, "env-") {
+			// a fact about the environment that callers may use but the code cannot establish
+			// (e.g. a process holds at most 2^32 sessions): assumed, listed in the evidence
+			res.Notes.Assumed["environment assumption of "+ct.Key+" ["+cl.Label+"]: "+cl.Src] = true
+			continue
+		}
 		parts := fc.evalClauseParts(penv, cl)
 		for i, t := range parts {
 			lab := cl.Label
@@ -235,7 +245,9 @@ func (fc *FnCtx) applyGhostSets(ct *Contract, env *SpecEnv, st *State) {
 			}()
 			t = env.eval(ga.Expr)
 		}()
-		gt, kind := env.resolveType(g.Type)
+		genv := *env
+		genv.PkgPath = g.PkgPath
+		gt, kind := genv.resolveType(g.Type)
 		hvs = append(hvs, HeapVar{"$g." + ga.Name, env.sortOfKind(gt, kind), HGhost})
 		vals = append(vals, t.T)
 	}
